@@ -51,6 +51,9 @@ func (r C11Rule) text() string {
 		b.WriteString("  FX(@name)\n  zz = 1 / 0\n  return " + r.Lit + "\n")
 	case "failinret":
 		b.WriteString("  FX(@name)\n  return 1 + \"a\"\n")
+	case "failbreak":
+		// a break outside every loop makes the rule fail; it has no entry
+		b.WriteString("  FX(@name)\n  if tn == 1 {\n    break\n  }\n  return " + r.Lit + "\n")
 	case "failunexp":
 		// the statements succeed and the rule reaches its return, but the returned value (read
 		// from an unexported field) cannot be handed out: the rule fails, so it has no entry
@@ -78,7 +81,7 @@ func (r C11Rule) text() string {
 }
 
 func (r C11Rule) fails() bool {
-	return r.Kind == "failbefore" || r.Kind == "failinret" || r.Kind == "failunexp"
+	return r.Kind == "failbefore" || r.Kind == "failinret" || r.Kind == "failunexp" || r.Kind == "failbreak"
 }
 
 // returns reports whether the rule reaches a return when it runs with the given flag.
@@ -118,11 +121,11 @@ func init() {
 			if big {
 				n = uni(t, "nrules_big", 20, 40)
 			}
-			kinds := []string{"val", "val", "bare", "nested", "none", "failbefore", "failinret", "failunexp", "flag", "flag", "valtag", "zerostruct", "nestedrange"}
+			kinds := []string{"val", "val", "bare", "nested", "none", "failbefore", "failinret", "failunexp", "failbreak", "flag", "flag", "valtag", "zerostruct", "nestedrange"}
 			haveTagSetter := false
 			for i := 0; i < n; i++ {
 				k := kinds[uni(t, fmt.Sprintf("kind%d", i), 0, len(kinds)-1)]
-				if big && (k == "failbefore" || k == "failinret" || k == "failunexp" || k == "valtag") {
+				if big && (k == "failbefore" || k == "failinret" || k == "failunexp" || k == "failbreak" || k == "valtag") {
 					k = "val"
 				}
 				if k == "valtag" {
